@@ -60,7 +60,7 @@ def random_step(rng, profile, allow_repack=True):
         'reopen': 1, 'initagain': 0.3, 'has': 0.7, 'get': 0.7, 'list': 0.5,
     }
     if profile == 'C09':
-        weights.update({'addpack': 10, 'add': 6, 'import': 3, 'delete': 1, 'repack': 1})
+        weights.update({'addpack': 10, 'add': 8, 'import': 3, 'delete': 1, 'repack': 1, 'readd': 5})
     elif profile == 'C10':
         weights.update({'pack': 7, 'repack': 7, 'add': 6})
     elif profile == 'C11':
@@ -75,6 +75,9 @@ def random_step(rng, profile, allow_repack=True):
     step = {'name': name}
     if name == 'add':
         step.update(keys=[rng.choice(pool)], via=rng.choice(['bytes', 'stream']))
+    elif name == 'readd':
+        step.update(keys=[rng.choice(pool)], via=rng.choice(['bytes', 'stream']),
+                    how=rng.choice(['first', 'last', 'truncate', 'empty', 'grow']))
     elif name == 'addpack':
         noholes = rng.random() < (0.6 if profile == 'C09' else 0.35)
         step.update(keys=_keys(rng, 4, pool), z=rng.random() < 0.4, noholes=noholes,
@@ -222,6 +225,29 @@ class Runner:
                 else:
                     res = [cont.add_streamed_object(io.BytesIO(data(key)))]
                 return self.names(res), ''
+            if name == 'readd':
+                key = step['keys'][0]
+                path = cont._get_loose_path_from_hashkey(self.key_of[key])  # pylint: disable=protected-access
+                if os.path.exists(path):
+                    good = data(key)
+                    how = step['how']
+                    if how == 'first' and good:
+                        bad = bytes([good[0] ^ 0x40]) + good[1:]
+                    elif how == 'last' and good:
+                        bad = good[:-1] + bytes([good[-1] ^ 0x01])
+                    elif how == 'truncate' and good:
+                        bad = good[:len(good) // 2]
+                    elif how == 'empty' and good:
+                        bad = b''
+                    else:
+                        bad = good + b'x'
+                    with open(path, 'wb') as handle:
+                        handle.write(bad)
+                if step['via'] == 'bytes':
+                    res = [cont.add_object(data(key))]
+                else:
+                    res = [cont.add_streamed_object(io.BytesIO(data(key)))]
+                return self.names(res), ''
             if name == 'addpack':
                 kwargs = {'compress': step['z'], 'no_holes': step['noholes'], 'no_holes_read_twice': step['twice']}
                 via = step['via']
@@ -231,6 +257,14 @@ class Runner:
                     res = cont.add_streamed_objects_to_pack([io.BytesIO(data(k)) for k in step['keys']], **kwargs)
                 elif via == 'single':
                     res = [cont.add_streamed_object_to_pack(io.BytesIO(data(step['keys'][0])), **kwargs)]
+                elif via == 'offset':
+                    # streams handed over at a non-zero position (e.g. a header was already consumed)
+                    streams = []
+                    for k in step['keys']:
+                        stream = io.BytesIO(data(k))
+                        stream.seek(min(3, len(data(k))))
+                        streams.append(stream)
+                    res = cont.add_streamed_objects_to_pack(streams, **kwargs)
                 else:
                     paths = []
                     for i, k in enumerate(step['keys']):
@@ -453,7 +487,7 @@ def execute_history(job):
 INVARIANTS = {
     'C02': ['C02_Views', 'C02_Result'],
     'C03': ['C03_IndexOK'],
-    'C09': ['C09_Dedup', 'C09_NoHoles', 'C09_KnownNoGrowth', 'C09_ImportKnownNotWritten'],
+    'C09': ['C09_Dedup', 'C09_DamagedCopyRepaired', 'C09_NoHoles', 'C09_KnownNoGrowth', 'C09_ImportKnownNotWritten'],
     'C10': ['C10_Mode', 'C10_Sizes', 'C10_Totals', 'C10_Transparent'],
     'C11': ['C11_DeleteExact', 'C11_RepackCompact'],
     'C12': ['C12_ValidateClean'],
